@@ -401,8 +401,15 @@ impl MessageType for ResponseHead {
             length = PayloadLength::None;
         }
 
+        // 1xx (other than 101) and 204 responses never have a body, whatever their headers
+        // say (RFC 7230 §3.3.3)
+        let bodiless = status != StatusCode::SWITCHING_PROTOCOLS
+            && (status.is_informational() || status == StatusCode::NO_CONTENT);
+
         // message payload
-        let decoder = if let PayloadLength::Payload(pl) = length {
+        let decoder = if bodiless {
+            PayloadType::None
+        } else if let PayloadLength::Payload(pl) = length {
             pl
         } else if status == StatusCode::SWITCHING_PROTOCOLS {
             // switching protocol or connect
